@@ -66,3 +66,35 @@ Proof. exact positions_irrelevant_without_comments. Qed.
 (* the finiteness hypothesis is needed: infinity would be written inf.0, a selector on a name *)
 Theorem infinity_is_not_a_literal_refuted : parser_float f64_pos_inf = false /\ float_text f64_pos_inf = b "inf.0".
 Proof. destruct float_infinity_not_a_literal as (H1 & H2 & _). split; assumption. Qed.
+
+(* ---- the parser (parse/Parse.v: src/parse/mod.rs and precedence.rs combinator by combinator, compared with the real parser on
+   accept/reject and on the tree for every laid-out text by props/c05.py) and the print / parse round trip ---- *)
+From Ucg Require Import parse.Parse parse.Parse_Toks parse.Parse_Lemmas.
+From UcgGen Require Import PrecTable.
+
+(* token level, the WHOLE language: the tokens the printer writes for a program parse back to that program (templates kept as
+   the raw text the parser keeps), for every program inside the executable side condition prog_ok *)
+Theorem printed_tokens_parse_back : forall ind (p : Ast.prog),
+    prog_ok ind p = true -> parse (ptoks ind p ++ [(END, [])]) = Parsed (pnorm ind p).
+Proof. exact parse_tokens_of_prog. Qed.
+
+(* every binary tree the parser builds is the tree the precedence table prescribes (so parser-built trees always satisfy the
+   side condition of the round trip) *)
+Theorem parser_builds_table_conforming_trees : forall fuel ts e r,
+    p_expr fuel ts = Ok e r -> Climb.WF code_prec (tree_of e).
+Proof. exact parse_produces_wf. Qed.
+
+(* text level: wherever printing then lexing gives the program's tokens, formatting preserves the program ... *)
+Theorem formatting_preserves_the_program_given_tokens : forall ind (p : Ast.prog),
+    lex_of_print ind p -> prog_ok ind p = true -> parse_src (pp_stmts ind p) = Parsed (pnorm ind p).
+Proof. exact fmt_preserves_ast_of_tokens. Qed.
+
+(* ... unconditionally on the fragment where the lexer side is proved (literals, symbols, lists, tuples, groups, all 18 operators;
+   let / expression / assert / out statements) *)
+Theorem formatting_preserves_the_program : forall ind (p : Ast.prog),
+    frag_prog p = true -> prog_ok ind p = true -> parse_src (pp_stmts ind p) = Parsed p.
+Proof. exact fmt_preserves_ast. Qed.
+
+Theorem formatting_is_a_fixed_point : forall ind (p p' : Ast.prog),
+    frag_prog p = true -> prog_ok ind p = true -> parse_src (pp_stmts ind p) = Parsed p' -> pp_stmts ind p' = pp_stmts ind p.
+Proof. exact fmt_fixed_point. Qed.
